@@ -3,7 +3,7 @@ CONSTANTS
   BinOpsG = {"and", "<", "+", "^"}
   UnOpsG = {"-", "not"}
   LeafKindsG = {"cast", "ifexp", "call"}
-  ContextsG = {"local", "return", "arg", "if", "compound", "ifexp_then", "ifexp_else"}
+  ContextsG = {"local", "return", "arg", "if", "compound", "ifexp_then", "ifexp_else", "castop"}
   MaxDev = 2
   MaxPar = 2
   Shapes = {"bb_l", "bb_r", "bu_l", "bu_r", "ub", "uu", "b", "u", "l"}
